@@ -85,4 +85,17 @@ pub assume_specification[ u8::div_ceil ](a: u8, b: u8) -> (r: u8)
     ensures r as int == (a as int + b as int - 1) / (b as int),
 ;
 
+
+#[verifier::external_type_specification]
+#[verifier::external_body]
+pub struct ExFamilyN(crate::bgp::Family);
+#[verifier::external_type_specification]
+pub struct ExIpAddrN(std::net::IpAddr);
+pub uninterp spec fn fam_afi(f: crate::bgp::Family) -> u16;
+pub assume_specification[ crate::bgp::Family::afi ](f: &crate::bgp::Family) -> (r: u16)
+    ensures r == fam_afi(*f),
+;
+pub assume_specification[ Ipv4Addr::new ](a: u8, b: u8, c: u8, d: u8) -> (r: Ipv4Addr)
+;
+
 } // verus!
